@@ -64,4 +64,15 @@ def _validate(cio, path):
     bad = {k: v for k, v in errors.items() if k in ("SBML_FATAL", "SBML_ERROR", "SBML_SCHEMA_ERROR", "COBRA_FATAL",
                                                      "COBRA_ERROR") and v}
     if bad:
-        raise SBMLInvalid(str(bad)[:300])
+        reasons = set()
+        for msgs in bad.values():
+            for m in msgs:
+                if "listOfFluxObjectives" in m or "fluxObjective" in m:
+                    reasons.add("objective")
+                elif "listOfReactants" in m or "reactants" in m.lower() and "products" in m.lower():
+                    reasons.add("emptyreaction")
+                else:
+                    reasons.add("other")
+        e = SBMLInvalid(str(bad)[:300])
+        e.verif_name = "SBMLInvalid:" + "+".join(sorted(reasons))
+        raise e
